@@ -290,11 +290,57 @@ Proof.
 Qed.
 
 (* the peer's Logout: after it returned the connection is dead; it counts the Logout when it is in sequence *)
+(* the counting step of the peer's Logout: it never raises (its exceptions are logged), keeps the state, and
+   advances next_num_in by one exactly when the Logout carries the expected number *)
+Definition logout_count (m : msg) (n : Z) : M unit := fun w =>
+  (if n =? nin w then try_ (set_next_num_in m ;;; persist_in m) ;;; ret tt else ret tt) w.
+
+Lemma logout_count_ok m n w : rv (logout_count m n w) = inl tt.
+Proof.
+  unfold logout_count. destruct (n =? nin w); [|reflexivity]. rewrite bind_unfold. unfold try_.
+  destruct (rv ((set_next_num_in m;;; persist_in m) w)); reflexivity.
+Qed.
+
+Lemma logout_count_pres {X} (f : world -> X) m n : ins_all f [FNin; FJsin; FJin] -> pres f (logout_count m n).
+Proof.
+  intros H w. unfold logout_count. destruct (n =? nin w); [|reflexivity].
+  assert (Hp : pres f (try_ (set_next_num_in m;;; persist_in m);;; ret tt)); [|apply Hp].
+  cbn in H. destruct H as [H1 [H2 [H3 _]]].
+  pres_step; [|pres_tac]. apply pres_try. pres_step; [apply set_next_num_in_pres; ins_auto|apply persist_in_pres; ins_auto].
+Qed.
+
+Lemma logout_count_nin m n w :
+  mkind m <> KSeqReset -> get_int T34 m = inl n ->
+  nin (rw (logout_count m n w)) = if n =? nin w then nin w + 1 else nin w.
+Proof.
+  intros Hk En. unfold logout_count. destruct (n =? nin w) eqn:E; [|reflexivity].
+  assert (n = nin w) by lia. subst n.
+  assert (Hp : pres nin (persist_in m)) by (apply persist_in_pres; ins_solve).
+  apply get_int_inv in En. destruct En as [v [Hg Hv]].
+  assert (Hset : set_next_num_in m w = mkR (inl (nin w)) (set_nin (nin w + 1) w) []).
+  { unfold set_next_num_in. destruct (mkind m) eqn:Ek; try congruence; rewrite Hg, Hv; msimp; rewrite Z.eqb_refl; reflexivity. }
+  rewrite bind_unfold. unfold try_. rewrite bind_unfold. rewrite Hset. cbn [rv rw re].
+  destruct (rv (persist_in m (set_nin (nin w + 1) w))); cbn [ret rv rw re]; rewrite Hp; reflexivity.
+Qed.
+
+Lemma logout_counted_unfold c m w :
+  logout_counted c m w =
+  match get_int T34 m with
+  | inl n => let r := logout_count m n w in
+             mkR (rv (process_logout c m (rw r))) (rw (process_logout c m (rw r))) (re r ++ re (process_logout c m (rw r)))
+  | inr x => mkR (inr x) w []
+  end.
+Proof.
+  unfold logout_counted. rewrite bind_unfold. destruct (get_int T34 m) as [n|x]; cbn [lift ret raise rv rw re app]; [|reflexivity].
+  rewrite bind_unfold. cbn [getw rv rw re app]. rewrite bind_unfold.
+  change ((if n =? nin w then try_ (set_next_num_in m;;; persist_in m);;; ret tt else ret tt) w) with (logout_count m n w).
+  rewrite (logout_count_ok m n w). reflexivity.
+Qed.
+
+(* the peer's Logout: after it returned the connection is dead; it counts the Logout when it is in sequence *)
 Lemma logout_counted_dead c m w : rv (logout_counted c m w) = inl tt -> dead (rw (logout_counted c m w)).
 Proof.
-  unfold logout_counted. rewrite bind_unfold. destruct (get_int T34 m) as [n|x]; cbn [lift ret raise rv rw re]; [|discriminate].
-  rewrite bind_unfold. cbn [getw rv rw re]. rewrite bind_unfold.
-  destruct (rv ((if n =? nin w then set_next_num_in m;;; persist_in m else ret tt) w)); cbn [rv rw re]; [|discriminate].
+  rewrite logout_counted_unfold. destruct (get_int T34 m); cbn [rv rw]; [|discriminate].
   intros _. apply process_logout_dead.
 Qed.
 
@@ -305,29 +351,16 @@ Lemma logout_counted_nin c m w :
 Proof.
   intros Hnk.
   assert (Hl : pres nin (process_logout c m)) by (apply process_logout_pres; ins_solve).
-  assert (Hp : pres nin (persist_in m)) by (apply persist_in_pres; ins_solve).
-  unfold logout_counted. rewrite bind_unfold. destruct (get_int T34 m) as [n|x] eqn:En; cbn [lift ret raise rv rw re]; [|left; reflexivity].
-  rewrite bind_unfold. cbn [getw rv rw re]. rewrite bind_unfold.
-  destruct (n =? nin w) eqn:E.
-  - assert (n = nin w) by lia. subst n. right. split; [reflexivity|].
-    assert (Hs : nin (rw ((set_next_num_in m;;; persist_in m) w)) = nin w + 1).
-    { rewrite bind_unfold. apply get_int_inv in En. destruct En as [v [Hg Hv]].
-      assert (Hset : set_next_num_in m w = mkR (inl (nin w)) (set_nin (nin w + 1) w) []).
-      { unfold set_next_num_in. destruct (mkind m) eqn:Ek; try congruence; rewrite Hg, Hv; msimp; rewrite Z.eqb_refl; reflexivity. }
-      rewrite Hset. cbn [rv rw re]. rewrite Hp. reflexivity. }
-    destruct (rv ((set_next_num_in m;;; persist_in m) w)); cbn [rv rw re]; [rewrite Hl|]; exact Hs.
-  - left. cbn [ret rv rw re]. apply Hl.
+  rewrite logout_counted_unfold. destruct (get_int T34 m) as [n|x] eqn:En; cbn [rv rw]; [|left; reflexivity].
+  rewrite Hl, (logout_count_nin m n w Hnk En). destruct (n =? nin w) eqn:E; [|left; reflexivity].
+  right. assert (n = nin w) by lia. subst n. auto.
 Qed.
 
 Lemma logout_counted_aw c m : keeps aw_or_dead (logout_counted c m).
 Proof.
-  assert (Hn : keeps aw_or_dead (set_next_num_in m)).
-  { apply (keeps_pres st (fun s => s = ST_AWAITING \/ s <= ST_DISC_BROKEN)). apply set_next_num_in_pres. ins_solve. }
-  assert (Hp : keeps aw_or_dead (persist_in m)).
-  { apply (keeps_pres st (fun s => s = ST_AWAITING \/ s <= ST_DISC_BROKEN)). apply persist_in_pres. ins_solve. }
-  unfold logout_counted. keeps_step; [keeps_tac|]. keeps_step; [keeps_tac|].
-  keeps_step; [destruct (_ =? _); [keeps_step; [apply Hn|apply Hp]|keeps_tac]|].
-  intros w _. right. apply process_logout_dead.
+  intros w Hw. rewrite logout_counted_unfold. destruct (get_int T34 m); cbn [rw].
+  - right. apply process_logout_dead.
+  - exact Hw.
 Qed.
 
 Lemma pre_handlers_aw c m w0 :
